@@ -32,6 +32,12 @@ BAD_ARGS = {
     'sig.f3': [[0], ['y'], [0, 'x', 'y'], [5]],
 }
 
+# size amplification (seeded round 8): a share of the cases is BIG - lists of 10-13 mostly plain elements (with the usual share
+# of !unsafe marks on single elements), 8-10 top-level keys (many forward references), one level deeper
+EBIG = False
+P_EBIG = 0.08
+TOP_BIG = TOP + ['f', 'g', 'h', 'm', 'n', 'p', 'q', 'r']
+
 def pstr(path):
     return NodePath.join_path(list(path))
 
@@ -65,7 +71,10 @@ def gen_val(rng, depth, p_unsafe, p_bad, dyn=True):
         # string must hand its unsafety to the function node it renames)
         return S(rng.choice([0, 1, 12, 'p', 'q', True, None, 1.5, 'rec.g', 'rec.f', 'rec.g']), kw=kw)
     if r < 0.84:
-        items = [gen_val(rng, depth - 1, p_unsafe, p_bad) for _ in range(rng.choice([0, 1, 2, 3]))]
+        if EBIG and rng.random() < 0.4:
+            items = [gen_val(rng, 0, p_unsafe, p_bad, dyn=rng.random() < 0.1) for _ in range(rng.choice([10, 11, 12, 13]))]
+        else:
+            items = [gen_val(rng, depth - 1, p_unsafe, p_bad) for _ in range(rng.choice([0, 1, 2, 3]))]
         if dyn and rng.random() < P_OPS:
             # premerge operators holding dynamic nodes, with their own flags (seeded change S4-C07: an operator that turns
             # into a plain list must keep its marks); !extend needs no destination, !append fails without one
@@ -132,7 +141,7 @@ def fill(rng, n, paths, tops, p_bad, here=(), paths_src=None):
     return n
 
 def gen_dyn_doc(rng, depth=3, p_unsafe=0.06, p_bad=0.1, keys=None, known=None):
-    keys = keys or rng.sample(TOP, rng.choice([2, 3, 4, 5]))
+    keys = keys or (rng.sample(TOP_BIG, rng.choice([8, 9, 10])) if EBIG else rng.sample(TOP, rng.choice([2, 3, 4, 5])))
     kw = {'safe': False} if rng.random() < p_unsafe * 0.3 else {}
     doc = M([(k, gen_val(rng, depth, p_unsafe, p_bad)) for k in keys], kw=kw)
     paths = collect_paths(doc) + list(known or [])
@@ -140,6 +149,14 @@ def gen_dyn_doc(rng, depth=3, p_unsafe=0.06, p_bad=0.1, keys=None, known=None):
     return fill(rng, doc, paths, tops, p_bad, paths_src=doc)
 
 def gen_dyn_case(rng, nmax=3, depth=3, p_unsafe=0.06, p_bad=0.1, p_unsafe_src=0.12):
+    global EBIG
+    EBIG = rng.random() < P_EBIG
+    try:
+        return _gen_dyn_case(rng, nmax, depth + (1 if EBIG and rng.random() < 0.5 else 0), p_unsafe, p_bad, p_unsafe_src)
+    finally:
+        EBIG = False
+
+def _gen_dyn_case(rng, nmax, depth, p_unsafe, p_bad, p_unsafe_src):
     n = rng.choice([1, 1, 2, 2, 3][:nmax + 2])
     docs, known = [], []
     for i in range(n):
